@@ -53,6 +53,9 @@ def run(prog, rep, tier):
 
 
 # ---------------------------------------------------------------------------------------------- tables
+    r9 = rep.rule("R04.9", "MP_REACH next hop: an IPv4 address is padded to 16 octets only for families whose next hop field is defined as 16 octets; EVPN, multicast and SR Policy carry it as is")
+    check_nexthop_padding(prog, r9)
+    check_counted_after_append(prog, r5)
     r8 = rep.rule("R04.8", "encoders consult the negotiated ADD-PATH *send* state, parsers the *receive* state")
     check_addpath_direction(prog, r8)
 
@@ -814,3 +817,83 @@ def check_addpath_direction(prog, r):
     # exist is at least one reader on each side
     r.floor("PeerCodec encoder functions / closures reading an ADD-PATH direction flag", per_dir["addpath_tx"], 1)
     r.floor("PeerCodec parser functions / closures reading an ADD-PATH direction flag", per_dir["addpath_rx"], 1)
+
+
+# families whose MP_REACH next hop is the 4-octet IPv4 address itself: (AFI << 16) | SAFI
+AS_IS_NEXTHOP = {(1 << 16) | 2: "IPv4 multicast (RFC 4760)", (2 << 16) | 2: "IPv6 multicast", (1 << 16) | 73: "IPv4 SR Policy", (2 << 16) | 73: "IPv6 SR Policy",
+                 (25 << 16) | 70: "L2VPN EVPN (RFC 7432: the PE address, IPv4 or IPv6, as is)"}
+
+
+def check_nexthop_padding(prog, r):
+    """mp_reach_encode writes `16, addr, zero padding` for a 4-octet next hop unless the family is in the as-is set; the receiving
+    codec turns 16 octets into an IPv6 next hop, so padding a family that carries IPv4 next hops as they are (EVPN) changes the
+    next hop the peer decodes."""
+    k = prog.one(r"rustybgp_packet::bgp::PeerCodec::mp_reach_encode")
+    fv = view(prog, k)
+    r.analysed(prog.name(k))
+    brs = branches(fv)
+    pads = [bi for bi, t in fv.calls(re.compile(r".*BufMut::put_u8$")) if (t["args"][1].get("k") or {}).get("v") == 16]
+    if len(pads) != 1:
+        r.unanalysable("mp_reach_encode: %d sites writing the constant next-hop length 16" % len(pads), fv.loc())
+        return
+    excluded = set()
+    for g, l, h in flat_guards(fv, pads[0], brs):
+        if g[0] == "matches" and h == "not":
+            for x, ll in g[1]:
+                if show(x, 40).endswith(".0") and all(str(v).isdigit() for v in ll):
+                    excluded |= {int(v) for v in ll}
+        if g[0] == "field" and "else" in l:
+            pass
+    miss = sorted(set(AS_IS_NEXTHOP) - excluded)
+    if not excluded:
+        r.unanalysable("mp_reach_encode: the families excluded from next-hop padding are not tested in a form this rule reads (matches! on the family)", fv.loc(pads[0]))
+    elif miss:
+        r.fail(prog.name(k), "nexthop-padded:" + "+".join(str(m) for m in miss), "a 4-octet next hop of %s is padded to 16 octets: the peer's decoder reads 16 octets as an IPv6 address, "
+               "so the route arrives with a different next hop" % ", ".join(AS_IS_NEXTHOP[m] for m in miss), fv.loc(pads[0]))
+    else:
+        r.ok("mp_reach_encode: IPv4 next hops of multicast / SR Policy / EVPN families are written as they are (%d families excluded from padding)" % len(excluded))
+
+
+def check_counted_after_append(prog, r):
+    """append_nlri returns how many entries it wrote; encode_to restarts the next frame at that index.  The counter may move only
+    for an entry that was appended to the message: an increment that is not preceded, in its iteration, by the write into the
+    output buffer reports an entry that did not fit as sent, and every frame boundary silently loses a route."""
+    k = prog.one(r"rustybgp_packet::bgp::PeerCodec::append_nlri")
+    fv = view(prog, k)
+    r.analysed(prog.name(k))
+    rend = Renderer(fv, depth=8, through_names=True)
+    outs = {fv.local_name.get(l) for l in range(1, fv.f.get("argc", 0) + 1) if re.match(r"&mut [A-Z]\w*$", fv.f["locals"][l])}
+    outs.discard(None)
+    ret_names = set()
+    for bi, si, st in fv.defs().get(0, []):
+        if si != "t" and st["rv"]["r"] == "use":
+            q = st["rv"]["o"].get("c") or st["rv"]["o"].get("m")
+            if q is not None and fv.local_name.get(q["l"]):
+                ret_names.add(fv.local_name[q["l"]])
+    lps = loops(fv)
+    incs = []
+    for l, nm in fv.local_name.items():
+        if nm not in ret_names:
+            continue
+        for bi, si, st in fv.defs().get(l, []):
+            if bi in fv.live and si != "t" and any(bi in body for h, body, backs in lps):
+                e = Renderer(fv, depth=4).rvalue(st["rv"], 4)
+                if any(isinstance(x, tuple) and x and x[0] == "bin" and x[1].startswith("Add") for x in walk(e)):
+                    incs.append(bi)
+    if not incs or not outs:
+        r.unanalysable("append_nlri: %d increments of the returned counter inside the loop, output parameter %s" % (len(incs), sorted(outs)), fv.loc())
+        return
+    writes = []
+    for bi, t in fv.calls():
+        nm = t["f"].get("name") or ""
+        if not re.search(r"(BufMut::put_\w+|::encode\w*|extend_from_slice)$", nm):
+            continue
+        if any(set(expr_vars(rend.operand(a, 8))) & outs for a in t["args"]):
+            writes.append(bi)
+    for b in sorted(set(incs)):
+        body = min((bd for h, bd, backs in lps if b in bd), key=len)
+        if any(w in body and fv.dominates(w, b) for w in writes):
+            r.ok("append_nlri: the counter moves (line %d) only after the entry was written to the message" % fv.line(b))
+        else:
+            r.fail(prog.name(k), "counted-before-append", "the count of encoded entries is incremented (line %d) on a path that has not written the entry to the output buffer in that iteration: "
+                   "an entry that does not fit is reported as sent and the next frame starts one entry too late" % fv.line(b), fv.loc(b))
